@@ -179,7 +179,7 @@ func c26(c *an.Check) {
 
 func init() {
 	register(&Def{ID: "C26", Run: c26,
-		Explain:     "Decides on SSA: (ROLE) the offerer predicate returns strings.Compare(a,b) strictly-ordered against 0 with (a,b) in argument order, is called once with (local id string, remote key), and its verdict is stored only at tracker construction; (CALLARG) both QUIC handshakes over the data channel pass the tracker's peer id (parsed from the tracker's key, written only at construction) as the required remote peer; (MIRROR) EncodeWebRtcSignal encrypts MarshalVT(signal) to the destination key and DecodeWebRtcSignal unmarshals the decryption, under the same init-only context variable; the handler passes a decoded signal on only past decode ok and Validate ok; the dispatcher's type switch equals Validate's; (PANIC) signal.go codec functions have no undischarged panic site. Inherits C12 for the cipher. The public-key decryption chain is in this check's totality scope (PANIC); expected-peer forwarding shared with C03.",
+		Explain:     "Decides on SSA: (ROLE) the offerer predicate returns strings.Compare(a,b) strictly-ordered against 0 with (a,b) in argument order, is called once with (local id string, remote key), and its verdict is stored only at tracker construction; (CALLARG) both QUIC handshakes over the data channel pass the tracker's peer id (parsed from the tracker's key, written only at construction) as the required remote peer; (MIRROR) EncodeWebRtcSignal encrypts MarshalVT(signal) to the destination key and DecodeWebRtcSignal unmarshals the decryption, under the same init-only context variable; the handler passes a decoded signal on only past decode ok and Validate ok; the dispatcher's type switch equals Validate's; (PANIC) signal.go codec functions have no undischarged panic site. Inherits C12 for the cipher. The public-key decryption chain is in this check's totality scope (PANIC); expected-peer forwarding shared with C03. (OWNERSHIP) decryption leaves the caller's payload bytes untouched (a payload decodes the same however often it was tried).",
 		NotCov:      "confidentiality as such, pion's SDP/ICE parsers, and acceptance of the QUIC link (C03).",
 		Assumptions: commonAssumptions})
 }
